@@ -17,10 +17,13 @@ CLAIMED = {
     "C14": ("Exact <alg> theorems (support of every bound + idempotence), affineEq_oneRound; equality of model and implementation on the exhaustive small scope; brute-force hull", "§7 C14"),
 }
 CLAIMED.update({
+    "C13": ("C13_*: Sol/SolW/reported invariant under constraint permutation, the sort of Problem.init, duplication, dummy, variable permutation, shared-domain renaming, unsharing, translation; metamorphic runs of the real solver on rewritten models and shipped examples; Problem.init arrays vs initProblem", "§7 C13"),
+    "C16": ("PARTIAL: C16_safe_<alg> (19 algorithms), C16_branch_index, C16_stack; sign- and bounds-checked arrays under the interpreted engine on every propagator and on whole searches; alldifferent/gcc ports validated, not proved", "§7 C16"),
+    "C19": ("PARTIAL: C19_stack_bound, C19_overflow_reported, C19_push_at_most_two on the model of solve_one; heights {2..8,127,128,255,256,257,300,512} x depths around the limit in interpreted and compiled mode; 8/16-bit widths tested, not modelled", "§7 C19"),
+    "C20": ("PARTIAL: C20_<model>: Sol ↔ Valid for 12 shipped models (all parameters); constructor arrays compared with the Lean models; solutions validated by independent validators; counts vs OEIS/literature; optima vs brute force", "§7 C20"),
     "C02": ("C02_enumeration(_bc/_guarded): solveAll from the root returns L.map reported with L duplicate-free and exactly the solutions, with explicit fuel/height bounds; C02_strategy_independent: any two configurations and posting orders yield permutations of the same list; whole-run correspondence + brute force on the real solver", "§7 C02"),
     "C03": ("C03_optimum(_bc/_guarded): optimize returns none iff infeasible, else a solution of optimal value, and terminates; correspondence of minimize/maximize incl. unwatched and shared-offset objectives; brute-force optimum", "§7 C03"),
     "C10": ("C10_stack_unchanged, C10_le_bc, C10_keeps_solutions, C10_consOk_shaving (+ search corollaries): shaving leaves the stack as found, returns sub-domains of bound consistency's, never loses a solution; whole runs with shaving compared with the model and with plain BC", "§7 C10"),
-    "C13": ("C13_*: Sol/SolW/reported invariant under constraint permutation, init's sort, duplication, dummy, variable permutation, shared-domain renaming, unsharing, translation; metamorphic runs of the real solver on rewritten models", "§7 C13"),
     "C15": ("PARTIAL: C15_deterministic, C15_init_twice/C15_reuse, C15_stableSort_stable, C15_registry_*; compiled vs interpreted vs model on every case, histories (registrations, abandoned generators, reused problem objects) in one process — tested, not proved", "§7 C15"),
     "C17": ("C17_pass_exact (ghost trace of executions = counters), C17_solveOne/C17_solveAll (SOLUTION, BC = CHOICE + BACKTRACK + 1), C17_depth; the 13 statistics of every whole run compared with the model's", "§7 C17"),
     "C18": ("C18_halts_within_two_polls, C18_safety, C18_message_clears_suspicion on the parent state machine with time-outs; real worker processes killed at three points under a deadline watchdog; PARTIAL: OS behaviour of is_alive()/get(timeout) is tested, not proved", "§7 C18"),
